@@ -406,6 +406,85 @@ fn emit_corpus() -> Vec<PathBuf> {
         .collect()
 }
 
+// ---------------------------------------------------------------- context items: set / get / try_get vs the model
+/// Operation sequences on two real context items (`preliminary_glyph_order`, `glyph_order`), with persistence on over a
+/// build directory that may hold stale files of an earlier build, compared with FV.C14.Model.run (ids 0 and 1, values =
+/// small numbers, fname = identity, rd = identity).  try_get must answer from memory only.
+fn ctx_ops_stream(rng: &mut Rng, n: usize, id: &mut usize) -> usize {
+    use fontdrasil::orchestration::Access;
+    use fontir::ir::GlyphOrder;
+    use fontir::orchestration::{Context, Flags};
+    let value = |k: u64| -> GlyphOrder { (0..=k).map(|i| fontdrasil::types::GlyphName::new(format!("g{i}"))).collect() };
+    let decode = |g: &GlyphOrder| -> u64 { g.len() as u64 - 1 };
+    let mut ran = 0;
+    for _ in 0..n {
+        let tmp = vh::srcgen::scratch_dir("c14ctx");
+        let dir = tmp.path().join("build");
+        std::fs::create_dir_all(&dir).unwrap();
+        // stale files from an "earlier build"
+        let mut stale: [Option<u64>; 2] = [None, None];
+        {
+            let old = Context::new_root(Flags::default(), Some(dir.clone())).copy_for_work(Access::All, Access::All);
+            for i in 0..2 {
+                if rng.chance(1, 2) {
+                    let v = rng.below(5);
+                    stale[i] = Some(v);
+                    if i == 0 { old.preliminary_glyph_order.set(value(v)) } else { old.glyph_order.set(value(v)) }
+                }
+            }
+        }
+        let persistent = rng.chance(3, 4);
+        let ctx = Context::new_root(Flags::default(), if persistent { Some(dir.clone()) } else { None }).copy_for_work(Access::All, Access::All);
+        let nops = rng.range(1, 9) as usize;
+        let mut ops: Vec<String> = Vec::new();
+        let mut outs: Vec<String> = Vec::new();
+        let mut was_set = [false, false];
+        for _ in 0..nops {
+            let i = rng.below(2) as usize;
+            match rng.below(4) {
+                0 | 1 => {
+                    let v = rng.below(5);
+                    if i == 0 { ctx.preliminary_glyph_order.set(value(v)) } else { ctx.glyph_order.set(value(v)) }
+                    was_set[i] = true;
+                    ops.push(format!("OSet N {}%N {}%N", i, v));
+                    outs.push("RUnit N".into());
+                }
+                2 => {
+                    // get only what this build has set (C02 guarantees it); a get of an item never set is a panic in
+                    // the real code when nothing is on disk, which would take the harness down
+                    if !was_set[i] {
+                        continue;
+                    }
+                    let g = if i == 0 { ctx.preliminary_glyph_order.get() } else { ctx.glyph_order.get() };
+                    ops.push(format!("OGet N {}%N", i));
+                    outs.push(format!("RVal N {}%N", decode(&g)));
+                }
+                _ => {
+                    let g = if i == 0 { ctx.preliminary_glyph_order.try_get() } else { ctx.glyph_order.try_get() };
+                    ops.push(format!("OTry N {}%N", i));
+                    match &g {
+                        Some(g) => outs.push(format!("RVal N {}%N", decode(g))),
+                        None => outs.push("RNone N".into()),
+                    }
+                    // the property itself: an item this build has not produced is not there, whatever the directory holds
+                    if !was_set[i] && g.is_some() {
+                        emit_violation("try-get-sees-stale-file", format!("try_get of an item this build never set returns a value ({}) because a file of an earlier build is in the build directory", decode(g.as_ref().unwrap())),
+                                       json!({"item": if i == 0 { "preliminary_glyph_order" } else { "glyph_order" }, "stale": stale, "ops": ops}));
+                    }
+                }
+            }
+        }
+        let stale_fn = format!("(fun k => if (k =? 0)%N then {} else if (k =? 1)%N then {} else None)",
+                               stale[0].map(|v| format!("Some {}%N", v)).unwrap_or("None".into()), stale[1].map(|v| format!("Some {}%N", v)).unwrap_or("None".into()));
+        let coq = format!("outs_eqb (run N N.eqb (fun k => k) (fun v => v) {} (Build_ctx N (fun _ => None) {}) [{}]) [{}]",
+                          coq_bool(persistent), if persistent { stale_fn } else { "(fun _ => None)".into() }, ops.join("; "), outs.join("; "));
+        emit_case(*id, "context-ops", coq, None, ops.len() > 2, format!("c:{}:{:?}:{:?}", persistent, stale, ops), json!({"persistent": persistent, "stale": stale, "ops": ops, "impl": outs}));
+        *id += 1;
+        ran += 1;
+    }
+    ran
+}
+
 fn main() {
     let args: Vec<String> = std::env::args().collect();
     let args = &args[1..];
@@ -615,7 +694,9 @@ fn main() {
                     "font": again.is_ok()}));
         id += 1;
     }
+    let ctx_cases = ctx_ops_stream(&mut rng, arg_val(args, "--ctx", 150) as usize, &mut id);
     emit_stat(json!({"names_checked_for_collisions": names, "distinct_folded_outputs": seen.len(), "kern_location_pairs": pairs, "extra_evaluations": names - n,
+                     "context_op_sequences": ctx_cases,
                      "emit_ir_reused_directory_pairs": reused,
                      "emit_ir_sources": emit_runs, "emit_ir_fonts_compared": emit_fonts, "emit_ir_items_read_back": items_compared, "emit_ir_build_errors": emit_errors}));
 }
